@@ -84,4 +84,25 @@ def jerr (name : String) : Json := Json.mkObj [("err", .str name)]
 def jnat (n : Nat) : Json := .num (JsonNumber.fromNat n)
 def jint (n : Int) : Json := .num (JsonNumber.fromInt n)
 
+
+/-- one JSON case per input line -> one JSON result per output line -/
+def runLine (handler : String → Json → Json) (line : String) : String :=
+  match Json.parse line with
+  | .error e => (Json.mkObj [("id", .null), ("err", .str ("parse: " ++ e))]).compress
+  | .ok j =>
+    let id := (j.getObjVal? "id").toOption.getD .null
+    (Json.mkObj [("id", id), ("out", handler (str! j "kind") j)]).compress
+
+partial def loop (handler : String → Json → Json) (h : IO.FS.Stream) (out : IO.FS.Stream) : IO Unit := do
+  let line ← h.getLine
+  if line.isEmpty then return ()
+  let l := line.trimAscii.toString
+  if !l.isEmpty then out.putStrLn (runLine handler l)
+  loop handler h out
+
+def mainLoop (handler : String → Json → Json) : IO Unit := do
+  let out ← IO.getStdout
+  loop handler (← IO.getStdin) out
+  out.flush
+
 end Driver
